@@ -114,3 +114,221 @@ Proof.
     vm_compute. discriminate.
   - vm_compute. auto.
 Qed.
+
+(* ---- multiplexers call by call: what happens AFTER a branch has failed ------------------
+   (Io/Step.v: every feed and done is a step of its own, the caller may go on after a refusal) *)
+From JoseV Require Import Io.Step Io.StepProofs.
+
+(* a multiplexer requiring all branches: once a feed has answered false, every later feed
+   answers false and so does done *)
+Theorem C07_step_all_sticky : forall failed bs xs c' vs d,
+  session (PPlex true failed bs) xs = (c', vs, d) ->
+  forall i, nth_error vs i = Some false ->
+    (forall j v, (i <= j)%nat -> nth_error vs j = Some v -> v = false) /\ d = false.
+Proof. exact (plex_sticky true). Qed.
+Print Assumptions C07_step_all_sticky.
+
+(* the same holds for one requiring any (its false means that the last branch has gone) *)
+Theorem C07_step_plex_sticky : forall all failed bs xs c' vs d,
+  session (PPlex all failed bs) xs = (c', vs, d) ->
+  forall i, nth_error vs i = Some false ->
+    (forall j v, (i <= j)%nat -> nth_error vs j = Some v -> v = false) /\ d = false.
+Proof. exact plex_sticky. Qed.
+Print Assumptions C07_step_plex_sticky.
+
+(* after a feed (a done) that answered false nothing changes any more, whatever is called *)
+Theorem C07_step_feed_false_forever : forall all failed bs x,
+  snd (feed1 (PPlex all failed bs) x) = false ->
+  forall xs, session (fst (feed1 (PPlex all failed bs) x)) xs
+             = (fst (feed1 (PPlex all failed bs) x), repeat false (length xs), false).
+Proof. exact feed_false_forever. Qed.
+Print Assumptions C07_step_feed_false_forever.
+
+Theorem C07_step_done_false_forever : forall all failed bs,
+  snd (done1 (PPlex all failed bs)) = false ->
+  forall xs, session (fst (done1 (PPlex all failed bs))) xs
+             = (fst (done1 (PPlex all failed bs)), repeat false (length xs), false).
+Proof. exact done_false_forever. Qed.
+Print Assumptions C07_step_done_false_forever.
+
+(* a failed branch receives no further data: a released branch stays released in the very
+   state in which it was released ... *)
+Theorem C07_step_released_stays : forall all failed bs xs i b,
+  nth_error bs i = Some (false, b) ->
+  nth_error (branches (fst (fst (session (PPlex all failed bs) xs)))) i = Some (false, b).
+Proof. exact released_stays. Qed.
+Print Assumptions C07_step_released_stays.
+
+(* ... at any depth: a sink below a released branch (of any multiplexer on the way down) holds
+   the same bytes after any further feeds and done ... *)
+Theorem C07_step_no_further_data : forall c xs i d,
+  nth_error (frozen c) i = Some (Some d) ->
+  nth_error (sinks_of (fst (fst (session c xs)))) i = Some d.
+Proof. exact no_further_data. Qed.
+Print Assumptions C07_step_no_further_data.
+
+(* ([frozen] marks exactly the sinks of released branches, with what they hold) *)
+Theorem C07_step_frozen_is_content : forall c i d,
+  nth_error (frozen c) i = Some (Some d) -> nth_error (sinks_of c) i = Some d.
+Proof. exact frozen_is_content. Qed.
+Print Assumptions C07_step_frozen_is_content.
+
+Theorem C07_step_released_is_frozen : forall all failed pre b post,
+  frozen (PPlex all failed (pre ++ (false, b) :: post))
+  = frozen (PPlex all failed pre) ++ map Some (sinks_of b) ++ frozen (PPlex all failed post).
+Proof. exact released_is_frozen. Qed.
+Print Assumptions C07_step_released_is_frozen.
+
+(* ... and the call in which a sink is released has not added to it: it holds what it had accepted *)
+Theorem C07_step_released_sink_holds : forall all failed bs x i s b',
+  nth_error bs i = Some (true, PSink s) ->
+  nth_error (branches (fst (feed1 (PPlex all failed bs) x))) i = Some (false, b') ->
+  exists s', b' = PSink s' /\ sink_data s' = sink_data s.
+Proof. exact released_sink_holds. Qed.
+Print Assumptions C07_step_released_sink_holds.
+
+(* one requiring any: a feed answers true iff a branch that was live before the call accepted
+   the buffer; every live branch is fed, exactly the refusing ones are released *)
+Theorem C07_step_any_feed : forall bs x,
+  snd (feed1 (PPlex false false bs) x) = true <->
+  exists fb, In fb bs /\ fst fb = true /\ snd (feed1 (snd fb) x) = true.
+Proof. exact any_feed_verdict. Qed.
+Print Assumptions C07_step_any_feed.
+
+Theorem C07_step_any_done : forall bs,
+  snd (done1 (PPlex false false bs)) = true <->
+  exists fb, In fb bs /\ fst fb = true /\ snd (done1 (snd fb)) = true.
+Proof. exact any_done_verdict. Qed.
+Print Assumptions C07_step_any_done.
+
+Theorem C07_step_any_state : forall bs x,
+  fst (feed1 (PPlex false false bs) x)
+  = PPlex false false (map (fun fb : bool * pchain =>
+                             if fst fb then (snd (feed1 (snd fb) x), fst (feed1 (snd fb) x)) else fb) bs).
+Proof. exact any_feed_state. Qed.
+Print Assumptions C07_step_any_state.
+
+(* it answers false for ever once no branch is live *)
+Theorem C07_step_any_no_live : forall failed bs xs,
+  existsb (fun fb : bool * pchain => fst fb) bs = false ->
+  session (PPlex false failed bs) xs = (PPlex false failed bs, repeat false (length xs), false).
+Proof. exact any_no_live_forever. Qed.
+Print Assumptions C07_step_any_no_live.
+
+Theorem C07_step_any_false_no_live : forall bs x,
+  snd (feed1 (PPlex false false bs) x) = false ->
+  exists bs', fst (feed1 (PPlex false false bs) x) = PPlex false false bs' /\
+              existsb (fun fb : bool * pchain => fst fb) bs' = false.
+Proof. exact any_false_no_live. Qed.
+Print Assumptions C07_step_any_false_no_live.
+
+(* one requiring all, a single call: true iff it had not failed, has a live branch and every
+   live branch accepted *)
+Theorem C07_step_all_feed : forall failed bs x,
+  snd (feed1 (PPlex true failed bs) x) = true <->
+  failed = false /\
+  (exists fb, In fb bs /\ fst fb = true) /\
+  (forall fb, In fb bs -> fst fb = true -> snd (feed1 (snd fb) x) = true).
+Proof. exact all_feed_verdict. Qed.
+Print Assumptions C07_step_all_feed.
+
+Theorem C07_step_all_done : forall failed bs,
+  snd (done1 (PPlex true failed bs)) = true <->
+  failed = false /\
+  (exists fb, In fb bs /\ fst fb = true) /\
+  (forall fb, In fb bs -> fst fb = true -> snd (done1 (snd fb)) = true).
+Proof. exact all_done_verdict. Qed.
+Print Assumptions C07_step_all_done.
+
+(* on the first refusing branch: the live branches before it have received the buffer, it is
+   released, the branches after it are NOT fed in that call, the multiplexer is marked failed *)
+Theorem C07_step_all_refused : forall pre b post x,
+  (forall fb, In fb pre -> fst fb = true -> snd (feed1 (snd fb) x) = true) ->
+  snd (feed1 b x) = false ->
+  feed1 (PPlex true false (pre ++ (true, b) :: post)) x
+  = (PPlex true true
+       (map (fun fb : bool * pchain =>
+               if fst fb then (snd (feed1 (snd fb) x), fst (feed1 (snd fb) x)) else fb) pre
+        ++ (false, fst (feed1 b x)) :: post), false).
+Proof. exact all_feed_refused. Qed.
+Print Assumptions C07_step_all_refused.
+
+Theorem C07_step_all_false_why : forall bs x,
+  snd (feed1 (PPlex true false bs) x) = false ->
+  existsb (fun fb : bool * pchain => fst fb) bs = false \/
+  exists pre b post, bs = pre ++ (true, b) :: post /\
+    (forall fb, In fb pre -> fst fb = true -> snd (feed1 (snd fb) x) = true) /\
+    snd (feed1 b x) = false.
+Proof. exact all_feed_false_why. Qed.
+Print Assumptions C07_step_all_false_why.
+
+(* up to the first refusal this is the whole-run semantics above: on a chain without stages
+   and with no multiplexer marked failed, [feeds] returns the number of feeds the per-call
+   semantics accepts before its first refusal, and the state the per-call semantics is in
+   after the refused call (after the last call if none is refused) *)
+Theorem C07_step_agreement : forall c, clean c -> forall xs,
+  feeds (to_chain c) xs
+  = (to_chain (fst (feeds1 c (take (S (lead (snd (feeds1 c xs)))) xs))), lead (snd (feeds1 c xs))).
+Proof. exact agreement. Qed.
+Print Assumptions C07_step_agreement.
+
+Theorem C07_step_agreement_prefix : forall c, clean c -> forall xs j,
+  (j <= lead (snd (feeds1 c xs)))%nat ->
+  feeds (to_chain c) (take j xs) = (to_chain (fst (feeds1 c (take j xs))), j).
+Proof. exact agreement_prefix. Qed.
+Print Assumptions C07_step_agreement_prefix.
+
+Theorem C07_step_agreement_chain : forall c p xs, of_chain c = Some p ->
+  feeds c xs = (to_chain (stop1 p xs), acc1 p xs) /\
+  all_sinks (fst (feeds c xs)) = sinks_of (stop1 p xs).
+Proof. exact agreement_chain. Qed.
+Print Assumptions C07_step_agreement_chain.
+
+(* ... and the whole run succeeds ([runc]: every buffer fed, then done) iff, call by call, every
+   feed is accepted and done succeeds *)
+Theorem C07_step_run_agreement : forall c, clean c -> forall xs,
+  snd (runc (to_chain c) xs)
+  = forallb (fun v : bool => v) (snd (feeds1 c xs)) && snd (done1 (fst (feeds1 c xs))).
+Proof. exact run_agreement. Qed.
+Print Assumptions C07_step_run_agreement.
+
+Theorem C07_step_run_agreement_chain : forall c p xs, of_chain c = Some p ->
+  (snd (run c xs) = true <->
+   (forall v, In v (snd (fst (session p xs))) -> v = true) /\ snd (session p xs) = true).
+Proof. exact run_agreement_chain. Qed.
+Print Assumptions C07_step_run_agreement_chain.
+
+(* of_chain succeeds exactly on the chains without stages, and gives a clean chain *)
+Theorem C07_step_of_chain : forall c p, of_chain c = Some p -> to_chain p = c /\ clean p.
+Proof. exact of_chain_spec. Qed.
+Print Assumptions C07_step_of_chain.
+
+Theorem C07_step_lead : forall vs,
+  (forall i, (i < lead vs)%nat -> nth_error vs i = Some true) /\
+  ((lead vs < length vs)%nat -> nth_error vs (lead vs) = Some false).
+Proof. exact lead_spec. Qed.
+Print Assumptions C07_step_lead.
+
+(* non-vacuity: plexall(buffer:4, malloc) and plexany(buffer:4, malloc) fed "abc","de","f","g","h" *)
+Example C07_step_ex_all :
+  let c := PPlex true false [(true, PSink (SBuffer 4 [])); (true, PSink (SMalloc []))] in
+  let xs := [[97; 98; 99]; [100; 101]; [102]; [103]; [104]] in
+  session c xs
+  = (PPlex true true [(false, PSink (SBuffer 4 [97; 98; 99])); (true, PSink (SMalloc [97; 98; 99]))],
+     [true; false; false; false; false], false) /\
+  sinks_of (fst (fst (session c xs))) = [[97; 98; 99]; [97; 98; 99]] /\
+  frozen (fst (fst (session c xs))) = [Some [97; 98; 99]; None] /\
+  of_chain (Plex true [(true, Sink (SBuffer 4 [])); (true, Sink (SMalloc []))]) = Some c /\
+  clean c.
+Proof. vm_compute. repeat split. Qed.
+
+Example C07_step_ex_any :
+  let c := PPlex false false [(true, PSink (SBuffer 4 [])); (true, PSink (SMalloc []))] in
+  let xs := [[97; 98; 99]; [100; 101]; [102]; [103]; [104]] in
+  session c xs
+  = (PPlex false false [(false, PSink (SBuffer 4 [97; 98; 99]));
+                        (true, PSink (SMalloc [97; 98; 99; 100; 101; 102; 103; 104]))],
+     [true; true; true; true; true], true) /\
+  sinks_of (fst (fst (session c xs))) = [[97; 98; 99]; [97; 98; 99; 100; 101; 102; 103; 104]] /\
+  frozen (fst (fst (session c xs))) = [Some [97; 98; 99]; None].
+Proof. vm_compute. repeat split. Qed.
